@@ -4,6 +4,19 @@ claimed / not_applicable partition is always consistent)."""
 import json
 
 CLAIMS = {
+ 'C11': dict(
+   text='Static decision that buffersize/tempdir/cache/presorted can only select a strategy: every one of the ~60 call '
+        'sites between callables that accept them forwards the caller\'s own argument unchanged; defaults are the '
+        'documented ones and None becomes config.sort_buffersize in exactly one place; in all 18 sort-backed view '
+        'constructors presorted=True skips every sort and presorted=False sorts each table by the operator\'s own key; '
+        'presorted is forwarded only with the caller\'s own table and literal presorted=True is justified by a sort; '
+        'the extracted decision tables of SortView.__iter__ / the hash-join __iter__s serve a cache exactly when '
+        'cache is true. A dropped argument is a per-call-site fact, true for every value and input.',
+   ref='DESIGN.md §4 C11',
+   note='relies on C05 for sort itself being strategy independent; does not compute any output; callee resolution '
+        'and the key-naming convention (left->lkey, right->rkey, else key) are trusted',
+   technique='call-graph forwarding check over resolved callees + finite decision-table extraction '
+             '(truth-table enumeration of constructor / dispatch ladders)'),
  'C02': dict(
    text='Static decision of the structural part of laziness over the whole operator catalogue: no view constructor / '
         'view-returning function applies an eager consumer (directly or through resolved petl callees) to a table '
